@@ -82,7 +82,12 @@ class FigureMarkdown(SphinxDirective):
 
         # note on error the parsed content is still returned, after the message:
         # its targets, footnote references, etc. are already registered in the document
-        if len(node.children) != 2:
+        # warnings about the content (e.g. an invalid image option) are not content
+        messages = [c for c in node.children if isinstance(c, nodes.system_message)]
+        children = [
+            c for c in node.children if not isinstance(c, nodes.system_message)
+        ]
+        if len(children) != 2:
             return [
                 self.figure_error(
                     "content should be one image, "
@@ -91,7 +96,7 @@ class FigureMarkdown(SphinxDirective):
                 *node.children,
             ]
 
-        image_node, caption_para = node.children
+        image_node, caption_para = children
         if isinstance(image_node, nodes.paragraph):
             image_node = image_node[0]
 
@@ -130,7 +135,7 @@ class FigureMarkdown(SphinxDirective):
             self.options["name"] = self.arguments[0]
             self.add_name(figure_node)
 
-        return [figure_node]
+        return [*messages, figure_node]
 
     def figure_error(self, message):
         """A warning for reporting an invalid figure."""
